@@ -3,16 +3,26 @@
 Specifications: spec/proc/Listener.tla (connection counters and the active gauge move with the registry under its
 lock; ConnStatsConserved, GaugeNonNegative; the pinned variant without the Stop accounting must fail) and
 spec/redis/ReqStats.tla (downstream total at dispatch, completion hook; one upstream total and one more hook per
-send incl. resends; per-command counters; Conserved at quiescence, NeverAhead always), both checked exhaustively.
+send incl. resends; per-command counters; the slots refresher's own requests; service stop: sessions gone, quit latch
+closed, backend clients stopped and drained - with the sends that still happen while the latch is closed: redirection
+replies for requests in flight and the refresher that took a pending trigger; Conserved at quiescence, NeverAhead always;
+the variant that registers the completion hook after the quit check must fail), both checked exhaustively;
+spec/redis/ReqStatsGen.tla (Gen_ReqStats_{any,fwd,mix}.cfg) emits the behaviours that are replayed.
 Code: the counters are read through the public stats package after histories that end in quiescence:
  - listener connection histories from the Listener model (accepts, closes, limit rejections, drain, stop with open
    connections) on a real listener (harness c09, sub-command c09-lstats);
+ - ReqStats behaviours (local/forwarded requests, redirections, backend failures, refresh rounds, stop with requests
+   and refresh rounds outstanding, replies/redirections/refresher sends in the quit window) forced on a real Redis
+   processor against gated cluster nodes (harness c20-reqstats; gates client.Stop and upstream.loopRefreshSlots.picked);
+   mandatory strata every run; the nine ghost counters of the module are compared as well (drift is a note);
  - Redis pipelines with and without backend faults, redirections, connection-limit rejections, unsupported and
    invalid requests, ending normally or with the service stopped while connections are open;
  - TCP relays with dial failures, host removal with open relays, limit rejections and stop with open connections.
 Equations: active gauge = 0, total connections = destroyed connections (downstream and upstream); total requests =
 success + failure (downstream and upstream); per command total = success + error; no gauge below zero.
 """
+import concurrent.futures as cf
+import json
 import os
 
 import kit
@@ -45,13 +55,167 @@ def equations(stats, label, stopped):
     return bad
 
 
+# strata of ReqStats behaviours; the mandatory ones are replayed in every run
+MANDATORY = ("refresh-after-quit", "redirect-after-quit", "redirect-after-quit/second-hop", "both-after-quit",
+             "reply-after-quit/ok", "reply-after-quit/fail", "drained-at-stop", "refresh-outstanding-at-quit",
+             "redirect-while-serving", "refresh-failed", "stop-right-after-start")
+
+
+def strata_of(beh):
+    steps = beh["steps"]
+    acts = [s["a"] for s in steps]
+    out = set()
+    if "RefreshSendAfterQuit" in acts:
+        out.add("refresh-after-quit")
+        if not any(a.startswith("Dispatch") for a in acts) and "RefreshSend" not in acts:
+            out.add("stop-right-after-start")
+    if "ResendAfterQuit" in acts:
+        out.add("redirect-after-quit")
+        for s in steps:
+            if s["a"] == "ResendAfterQuit" and any(t["a"] == "Resend" and t["r"] == s["r"] for t in steps):
+                out.add("redirect-after-quit/second-hop")
+    if "RefreshSendAfterQuit" in acts and "ResendAfterQuit" in acts:
+        out.add("both-after-quit")
+    for s in steps:
+        if s["a"] == "CompleteAfterQuit":
+            out.add("reply-after-quit/ok" if s["ok"] else "reply-after-quit/fail")
+        if s["a"] == "RefreshDone" and not s["ok"]:
+            out.add("refresh-failed")
+    if "Drain" in acts:
+        out.add("drained-at-stop")
+    if "RefreshDoneAfterQuit" in acts or "RefreshDrain" in acts:
+        out.add("refresh-outstanding-at-quit")
+    if "Resend" in acts:
+        out.add("redirect-while-serving")
+    if "DispatchLocal" in acts:
+        out.add("local")
+    return sorted(out)
+
+
+def window_of(beh):
+    acts = set(s["a"] for s in beh["steps"])
+    w = [n for a, n in (("ResendAfterQuit", "redirect"), ("RefreshSendAfterQuit", "refresh")) if a in acts]
+    return ("+".join(w) + "-after-quit") if w else "no-send-after-quit"
+
+
+def reqstats_generate(ctx, cfg):
+    per = 1500 if ctx.thorough else 500
+    r = ctx.tlc("redis", "ReqStatsGen", cfg, mode="sim", workers=1, sim_num=per, sim_depth=80, seed=ctx.seed,
+                deadlock=False, timeout=300)
+    if r.timeout or (r.error and "@@BEH" not in r.stdout):
+        raise kit.Inconclusive("behaviour generation failed (%s): %s" % (cfg, r.error[:500]))
+    return [p for (tag, p) in r.prints if tag == "BEH"]
+
+
+def reqstats_replay(ctx, pools):
+    """spec -> code: ReqStats behaviours on a real Redis processor, statistics read after the stop"""
+    import random
+    behs, seen = [], set()
+    for pool in pools:
+        for b in pool:
+            k = json.dumps(b["steps"], sort_keys=True)
+            if k in seen:
+                continue
+            seen.add(k)
+            b["strata"] = strata_of(b)
+            behs.append(b)
+    rnd = random.Random(ctx.seed)
+    rnd.shuffle(behs)
+    chosen, ids = [], set()
+    per_stratum = 6 if ctx.thorough else 2
+    for st in MANDATORY:
+        have = [b for b in behs if st in b["strata"]]
+        if not have:
+            raise kit.Inconclusive("no ReqStats behaviour of the mandatory stratum %s was emitted" % st)
+        have.sort(key=lambda b: len(b["steps"]))           # the shortest ones first: cheap and easy to read
+        for b in have[:per_stratum]:
+            if id(b) not in ids:
+                ids.add(id(b))
+                chosen.append(b)
+    total = 500 if ctx.thorough else 36
+    for b in behs:
+        if len(chosen) >= total:
+            break
+        if id(b) not in ids:
+            ids.add(id(b))
+            chosen.append(b)
+    for i, b in enumerate(chosen):
+        b["id"] = i + 1
+    bfile = os.path.join(ctx.work, "reqstats-behaviours.ndjson")
+    rfile = os.path.join(ctx.work, "reqstats-results.ndjson")
+    kit.write_ndjson(bfile, chosen)
+    rc, so, se = ctx.harness(["c20-reqstats", "-in", bfile, "-out", rfile], timeout=1500, allow_fail=True)
+    results = {r["id"]: r for r in (kit.read_ndjson(rfile) if os.path.exists(rfile) else [])}
+    good = exact = drift = 0
+    covered = set()
+    for b in chosen:
+        res = results.get(b["id"])
+        if res is None:
+            continue
+        key = [(s["a"], s["r"], s["ok"]) for s in b["steps"]]
+        if res.get("err") or res.get("notCompleted"):
+            ctx.notes.append("reqstats %d: %s" % (b["id"], res.get("err") or ("not quiescent: %s" % res.get("notCompleted"))))
+            continue
+        good += 1
+        ctx.case(key=["reqstats", key], nontrivial=True)
+        if res.get("double"):
+            ctx.notes.append("reqstats %d: request completed twice: %s" % (b["id"], res["double"]))
+        if res["exact"]:
+            exact += 1
+            covered.update(b["strata"])
+        bad = equations(res["stats"], "reqstats/" + window_of(b), True)
+        for sig, text in bad:
+            ctx.violation(sig, text + " after the ReqStats behaviour " + " ".join("%s(%s)" % (s["a"], s["r"]) for s in b["steps"]),
+                          {"behaviour": b, "result": res})
+        if not bad and res["exact"]:
+            ctx.cov["traces_validated_against_impl"] += 1
+            got = dict((k, (res.get("got") or {}).get(k, 0)) for k in b["expect"])
+            if got != b["expect"]:
+                drift += 1
+                ctx.notes.append("reqstats %d: counters differ from the module's ghost counters: %s vs %s" % (b["id"], got, b["expect"]))
+    ctx.cov["reqstats_replay"] = {"emitted_distinct": len(behs), "chosen": len(chosen), "replayed": good, "followed_exactly": exact,
+                                  "ghost_counter_drift": drift, "strata_followed": sorted(covered),
+                                  "mandatory": list(MANDATORY)}
+    if chosen:
+        b0 = chosen[0]
+        ctx.sample({"reqstats_behaviour": [(s["a"], s["r"], s["ok"]) for s in b0["steps"]], "expect": b0["expect"],
+                    "result": {k: v for k, v in (results.get(b0["id"]) or {}).items() if k in ("got", "exact", "exitedSeen", "completions")}})
+    if ctx.violations:
+        return
+    if rc != 0:
+        raise kit.Inconclusive("c20-reqstats exited %d: %s" % (rc, se[-1500:]))
+    if good < len(chosen) * 0.8 or exact < good * 0.6:
+        raise kit.Inconclusive("ReqStats replay driver unhealthy: %d behaviours, %d replayed, %d followed exactly; %s" % (
+            len(chosen), good, exact, "; ".join(ctx.notes[-3:])))
+    missing = [st for st in MANDATORY if st not in covered]
+    if missing:
+        raise kit.Inconclusive("mandatory ReqStats strata not followed on the real code: %s" % missing)
+
+
 def run(ctx):
     ctx.build()
     ctx.build("c09")
     ctx.assumptions += ["counters are read after the history has reached quiescence (no connection or request in flight); histograms are not part of the statement"]
-    r = ctx.mc("proc", "Listener", "MC_Listener_fixed.cfg", workers=8, timeout=900)
-    ctx.mc("proc", "Listener", "MC_Listener_nostats.cfg", workers=4, timeout=300, expect_violated=["ConnStatsConserved"], count=False)
-    ctx.mc("redis", "ReqStats", "MC_ReqStats.cfg", workers=4, timeout=300)
+    # the exhaustive runs and the behaviour emission are independent of each other: side by side
+    with cf.ThreadPoolExecutor(max_workers=5) as ex:
+        jobs = [
+            ex.submit(ctx.mc, "proc", "Listener", "MC_Listener_fixed.cfg", workers=4, timeout=900),
+            ex.submit(ctx.mc, "proc", "Listener", "MC_Listener_nostats.cfg", workers=2, timeout=300,
+                      expect_violated=["ConnStatsConserved"], count=False),
+            ex.submit(ctx.mc, "redis", "ReqStats", "MC_ReqStats.cfg" if ctx.thorough else "MC_ReqStats_quick.cfg", workers=4,
+                      timeout=600, coverage=True),
+            # anti-vacuity: with the completion hook registered after the quit check a send in the quit window is never
+            # counted as failed (once through a redirection reply, once through the refresher alone)
+            ex.submit(ctx.mc, "redis", "ReqStats", "MC_ReqStats_latehook.cfg", workers=1, timeout=300,
+                      expect_violated=["Conserved"], count=False),
+            ex.submit(ctx.mc, "redis", "ReqStats", "MC_ReqStats_latehook_refresh.cfg", workers=1, timeout=300,
+                      expect_violated=["Conserved"], count=False),
+        ]
+        gens = [ex.submit(reqstats_generate, ctx, cfg) for cfg in ("Gen_ReqStats_fwd.cfg", "Gen_ReqStats_any.cfg", "Gen_ReqStats_mix.cfg")]
+        done = [j.result() for j in jobs]
+        pools = [g.result() for g in gens]
+    ctx.check_vacuity(done[2], "ReqStats")   # every window (sends, replies and drains around the stop) is reachable
+    reqstats_replay(ctx, pools)
     # listener histories
     recs = c09.listener_stats(ctx, n=150 if ctx.thorough else 16)
     for x in recs:
